@@ -88,8 +88,9 @@ func (h *transportHandler) HandleLinkEstablished(lnk link.Link) {
 func (h *transportHandler) HandleLinkLost(lnk link.Link) {
 	h.c.bcast.HoldLockMaybeAsync(func(broadcast func(), getWaitCh func() <-chan struct{}) {
 		// fast path: clear by uuid
+		// the entry may belong to a newer link which re-used the uuid.
 		luuid := lnk.GetUUID()
-		if el, elOk := h.c.links[luuid]; elOk {
+		if el, elOk := h.c.links[luuid]; elOk && el.lnk == lnk {
 			delete(h.c.links, luuid)
 			h.c.flushEstablishedLink(el, false)
 			return
